@@ -35,7 +35,8 @@ fn console_vxw_c01() {
     ];
     // None = no rule set received for the endpoints
     let mut configs: Vec<Option<(&str, &str, u8)>> = vec![None];
-    for mode in ["disabled", "audit", "enforce"] {
+    // the mode of a rule set is matched without regard to letter case (the host documents "Enforce"; the agent's own status report lower-cases it)
+    for mode in ["disabled", "audit", "enforce", "Enforce", "ENFORCE", "Audit"] {
         for da in ["allow", "deny"] {
             for kind in 0u8..4 {
                 configs.push(Some((mode, da, kind)));
@@ -73,7 +74,7 @@ fn console_vxw_c01() {
                     // the rule sets of vx_rules speak about paths under /machine: for a request outside it (PUT /vmAgentLog) the privilege
                     // never matches and the default access decides
                     let under_machine = target.to_lowercase().starts_with("/machine");
-                    let enforced_denial = rules_apply && matches!(cfg, Some(("enforce", da, kind)) if if under_machine || *kind == 3 { !vx_rules_allow(da, *kind) } else { *da != "allow" });
+                    let enforced_denial = rules_apply && matches!(cfg, Some((m, da, kind)) if m.eq_ignore_ascii_case("enforce") && (if under_machine || *kind == 3 { !vx_rules_allow(da, *kind) } else { *da != "allow" }));
                     check(&mut n,
                         serde_json::json!({"attributed": true, "elevated": elevated, "destination": format!("{}:{}", ip, port), "rules": cfg.map(|(m, d, k)| format!("{}/{}/kind{}", m, d, k)), "request": format!("{} {}", method, target), "body_bytes": body.bytes().len()}),
                         &[(traversal, 404), (builtin_refusal || enforced_denial, 403)], &r, bytes, &reqs);
@@ -81,6 +82,24 @@ fn console_vxw_c01() {
             }
         }
     }
+
+    // ---- the three endpoints have rule sets of their OWN: the one of the connection's original destination decides, whatever the
+    //      other two say (deny-all in force for one endpoint, the others absent / allow-all / audit)
+    for (ei, (ip, port, ep)) in dests.iter().take(3).enumerate() {
+        for others in [None, Some(("enforce", "allow", 3u8)), Some(("audit", "deny", 3u8))] {
+            let mk = |i: usize| if i == ei { Some(vx_rules("enforce", "deny", 3, "root")) } else { others.map(|(m, d, k)| vx_rules(m, d, k, "root")) };
+            h.set_rules_each(&|| mk(0), &|| mk(2), &|| mk(1));
+            for (method, target, body) in requests.iter().take(2) {
+                let wire = vx_request_bytes(method, target, &[("Host".to_string(), ip.to_string())], body);
+                let (r, bytes, reqs) = h.one(&h.ps, &Attribution::full(true, ip, *port), wire, false);
+                check(&mut n,
+                    serde_json::json!({"attributed": true, "elevated": true, "destination": format!("{}:{} ({})", ip, port, ep), "rules_of_this_endpoint": "enforce/deny (no privilege)",
+                        "rules_of_the_other_two_endpoints": others.map(|(m, d, k)| format!("{}/{}/kind{}", m, d, k)), "request": format!("{} {}", method, target)}),
+                    &[(true, 403)], &r, bytes, &reqs);
+            }
+        }
+    }
+    h.set_rules(&|| None);
 
     // ---- every shape of a path that CONTAINS ".." (whole segment, glued to other text, encoded separators after it, at the
     //      start / end, three dots), on attributed and fully authorized connections: 404, zero bytes upstream
